@@ -97,7 +97,12 @@ func famEvents() {
 		if r.Intn(3) == 0 {
 			typ = "i"
 		}
-		t, _ := g.tree(typ, 1+r.Intn(*fDepth))
+		var t *Tree
+		if i%7 == 6 {
+			t = g.spine(typ, 5+r.Intn(10))
+		} else {
+			t, _ = g.tree(typ, 1+r.Intn(*fDepth))
+		}
 		if len(t.Kids) == 0 {
 			i--
 			continue
@@ -172,6 +177,34 @@ func famEvents() {
 						eff = append(eff, e)
 					}
 					run[disc] = M{"res": res, "evs": evs, "eff": eff}
+				}
+				// events of this evaluation retained un-copied ACROSS a further evaluation of the same Expr
+				{
+					ch := make(chan eval.Event, 1<<16)
+					on.expr.EventChan = ch
+					on.log.reset()
+					_ = safely(func() M {
+						v, err := on.expr.Eval(&eval.Ctx{VariableFetcher: &Fetcher{Vals: env, Log: on.log}})
+						return outcome(v, err)
+					})
+					var kept []eval.Event
+					for len(ch) > 0 {
+						kept = append(kept, <-ch)
+					}
+					other := envs[(ei+1)%len(envs)]
+					_ = safely(func() M {
+						v, err := on.expr.Eval(&eval.Ctx{VariableFetcher: &Fetcher{Vals: other, Log: on.log}})
+						return outcome(v, err)
+					})
+					for len(ch) > 0 {
+						<-ch
+					}
+					on.expr.EventChan = nil
+					evs := []interface{}{}
+					for _, ev := range kept {
+						evs = append(evs, evRec(ev))
+					}
+					run["across"] = M{"evs": evs}
 				}
 				on.log.reset()
 				tres, tevs := runWith(on.expr, "sync", func() M {
